@@ -204,6 +204,25 @@ func (fx *fixture) build(rng *mrand.Rand, k string) (rec []byte, inner *tlswire.
 }
 
 // runHistory executes one history on the real Conn and compares every step with the model.
+// heldKeys is the key list the server is given: the offer's key at a PRNG-chosen position among
+// 0..3 other keys (distinct config ids, sometimes one sharing the target's id). The retry rules
+// must not depend on where in the list the accepting key sits.
+func heldKeys(rng *mrand.Rand, keys []echgen.KeyPair, key echgen.KeyPair) []ech.Key {
+	var others []ech.Key
+	for _, j := range rng.Perm(len(keys))[:rng.IntN(4)] {
+		if keys[j].ID != key.ID {
+			others = append(others, keys[j].TLSKey())
+		}
+	}
+	if rng.IntN(4) == 0 {
+		others = append(others, echgen.NewKey(key.ID, key.PublicName).TLSKey())
+	}
+	pos := rng.IntN(len(others) + 1)
+	out := append([]ech.Key{}, others[:pos]...)
+	out = append(out, key.TLSKey())
+	return append(out, others[pos:]...)
+}
+
 func runHistory(r *mon.Run, work string, idx int, rng *mrand.Rand, keys []echgen.KeyPair, hist []string) {
 	key := keys[rng.IntN(len(keys))]
 	aead := []uint16{hpkex.AES128GCM, hpkex.AES256GCM, hpkex.ChaCha20}[rng.IntN(3)]
@@ -214,7 +233,7 @@ func runHistory(r *mon.Run, work string, idx int, rng *mrand.Rand, keys []echgen
 	fx.first = echgen.Gen(rng, key, aead, o)
 	c := map[string]any{"history": hist, "first": fx.first.Describe()}
 	r.Guard(work, idx, "history", c, func() {
-		flow, out := echrun.StartFlow(fx.first.Record(), []ech.Key{key.TLSKey()})
+		flow, out := echrun.StartFlow(fx.first.Record(), heldKeys(rng, keys, key))
 		if out.Err != nil || !out.Accepted || !bytes.Equal(out.First[5:], fx.first.Inner.Message()) {
 			r.Inconclusive("first hello of a history was not accepted (%v)", out.Err)
 			return
@@ -396,7 +415,7 @@ func TestCheck(t *testing.T) {
 		fx.first = echgen.Gen(rng, key, aead, o)
 		c := map[string]any{"first": fx.first.Describe(), "schedule": "second hello read while Write(HRR) is still in progress"}
 		r.Guard("reply-before-write-returns", i, "concurrent", c, func() {
-			flow, out := echrun.StartFlow(fx.first.Record(), []ech.Key{key.TLSKey()})
+			flow, out := echrun.StartFlow(fx.first.Record(), heldKeys(rng, keys, key))
 			if out.Err != nil || !out.Accepted {
 				r.Inconclusive("first hello not accepted (%v)", out.Err)
 				return
@@ -479,7 +498,7 @@ func TestCheck(t *testing.T) {
 		withCCS := rng.IntN(2) == 0
 		c := map[string]any{"first": fx.first.Describe(), "schedule": "Read pending on the transport while Write(HRR) runs", "second": kind, "ccs_first": withCCS}
 		r.Guard("read-pending-when-hrr-is-written", i, "concurrent", c, func() {
-			flow, out := echrun.StartFlow(fx.first.Record(), []ech.Key{key.TLSKey()})
+			flow, out := echrun.StartFlow(fx.first.Record(), heldKeys(rng, keys, key))
 			if out.Err != nil || !out.Accepted {
 				r.Inconclusive("first hello not accepted (%v)", out.Err)
 				return
